@@ -283,7 +283,7 @@ class Recorder:
 def sk_sankey(tier):
     out = []
     for g in ("chain_mixed_dims", "parallel_and_opposing", "with_stock", "self_loop", "no_stocks_scalar_flows", "inner_ring_mixed_dims"):
-        for opt in ("default", "exclude_nothing", "exclude_flow", "exclude_process", "slice_item", "slice_item_by_name", "split_by_dim"):
+        for opt in ("default", "exclude_nothing", "exclude_flow", "exclude_flow_after_construction", "exclude_process", "slice_item", "slice_item_by_name", "split_by_dim"):
             out.append({"graph": g, "opt": opt, "table": "as_listed"})
     # settings that must be refused
     for opt in ("refuse_unknown_process", "refuse_unknown_flow", "refuse_slice_unknown_dim", "refuse_no_default_colour", "refuse_colour_dim_not_in_flow", "refuse_colour_list_too_short"):
@@ -373,6 +373,12 @@ def u_sankey(W, sk):
     if out.kind != "return":
         return
     plotter = out.value
+    if opt == "exclude_flow_after_construction" and S.flow_list:
+        # the exclusion list of an existing plotter is changed (its fields are plain attributes): the next drawing
+        # follows the current list
+        inner = [fl for fl, a, b in S.flow_list if a != "sysenv" and b != "sysenv"]
+        excluded_f = [(inner[0] if inner else S.flow_list[-1][0]).name]
+        plotter.exclude_flows = list(excluded_f)
     o2 = W.call(lambda: (plotter._get_links_dict(), plotter._get_nodes_dict()))
     W.prove("sankey.links_and_nodes_return", o2.kind == "return", detail=repr(o2))
     if o2.kind != "return":
